@@ -8,7 +8,7 @@ git -C /repo archive HEAD | tar -x -C "$scratch"
 if ! git -C "$scratch" apply --unsafe-paths "$patch" 2>/dev/null; then (cd "$scratch" && patch -p1 -s < "$patch") || { echo "PATCH-FAILED $patch"; rm -rf "$scratch"; exit 3; }; fi
 cd "$(dirname "$0")/.."
 for p in "$@"; do
-  out=$(VERIF_REPO="$scratch" VERIF_SHRINK_S=${VERIF_SHRINK_S:-10} VERIF_REPLAY_DIR=/tmp/mutant-replays timeout 1800 ./check $p --seconds $secs 2>&1); code=$?
+  out=$(VERIF_REPO="$scratch" VERIF_SHRINK_S=${VERIF_SHRINK_S:-10} VERIF_REPLAY_DIR=/tmp/mutant-replays timeout 1800 ./check $p --tier ${VERIF_TIER:-quick} --seconds $secs 2>&1); code=$?
   sigs=$(echo "$out" | grep "signature:" | sed 's/.*signature: //' | sort -u | head -4 | tr '\n' ' ')
   echo "$p exit=$code $sigs"
 done
